@@ -258,6 +258,16 @@ pub fn generate_c02(opts: &Opts, sink: &mut CaseSink) {
         sink.count_n("wire_bytes", bytes.len() as u64);
         sink.push(term, json!({"kind": "framing", "demux": [db, dh, pb], "messages": format!("{:?}", msgs), "n_bytes": bytes.len(), "decoded": format!("{:?}", decoded)}), msgs.len() >= 2);
     }
+    // frames far larger than the multiplexer's buffers mixed with tiny ones on a shared TCP
+    // connection: per sender, everything arrives once and in sending order
+    for mode in if opts.thorough { vec![0u64, 1, 2, 0, 1] } else { vec![0u64, 1] } {
+        let n = 90i64;
+        let got = big_frames_job(n, mode, opts.seed + 7 + mode);
+        let (got_s, ok) = match &got { Ok(v) => (v.coq(), true), Err(_) => ("[]".to_string(), false) };
+        sink.count("big_frames_tcp_link");
+        sink.push(format!("(CBig 4 {} {} {})", n, got_s, ok),
+                  json!({"kind": "big frames over a shared TCP link", "hosts": "2 x 2 cores", "mode": mode, "per_sender": n, "outcome": match &got { Ok(v) => format!("{} elements", v.len()), Err(m) => m.clone() }}), true);
+    }
     // a real TCP link that stays idle for a while and is then used again: nothing may be lost
     for pause_ms in if opts.thorough { vec![12_000u64, 35_000] } else { vec![12_000u64] } {
         let (first, second) = (200i64, 200i64);
@@ -267,6 +277,50 @@ pub fn generate_c02(opts: &Opts, sink: &mut CaseSink) {
         sink.push(format!("(CIdle {} {} {} {})", pause_ms, first + second, got_s, ok),
                   json!({"kind": "idle TCP link", "hosts": "2 x 2 cores", "pause_ms": pause_ms, "sent": first + second, "outcome": match &got { Ok(v) => format!("{} elements", v.len()), Err(m) => m.clone() }}), true);
     }
+}
+
+/// 2 hosts x 2 cores: every replica of a parallel source emits `n` messages (one element per
+/// message) whose sizes alternate between a few bytes and ~70 KB (more than any buffer of the
+/// multiplexer); all of them go over a forward connection to ONE replica on host 0, so two of
+/// the four senders share one multiplexed TCP connection. Observed: (sender, seq, length) in
+/// arrival order at the single consumer.
+pub fn big_frames_job(n: i64, mode: u64, seed: u64) -> Result<Vec<(i64, i64, i64)>, String> {
+    use renoir::config::ConfigBuilder;
+    let (tx, rx) = std::sync::mpsc::channel::<Result<Option<Vec<(i64, i64, i64)>>, String>>();
+    for h in 0..2u64 {
+        let tx = tx.clone();
+        std::thread::spawn(move || {
+            let r = catch(move || {
+                let mut toml = String::new();
+                for i in 0..2 { toml.push_str(&format!("[[host]]\naddress = \"127.204.{}.{}\"\nbase_port = 24500\nnum_cores = 2\n\n", seed % 250, i + 1)); }
+                let mut b = ConfigBuilder::new_remote();
+                b.parse_toml_str(&toml).unwrap();
+                b.host_id(h);
+                let env = StreamContext::new(b.build().unwrap());
+                let bm = match mode { 0 => BatchMode::single(), 1 => BatchMode::fixed(2), _ => BatchMode::adaptive(3, std::time::Duration::from_millis(2)) };
+                let out = env
+                    .stream_par_iter(move |id, _p| (0..n).map(move |i| (id as i64, i, vec![7u8; if i % 3 == 2 { 70_000 } else { 10 + i as usize }])))
+                    .batch_mode(bm)
+                    .replication(renoir::Replication::One)
+                    .map(|(id, i, v): (i64, i64, Vec<u8>)| (id, i, v.len() as i64))
+                    .collect_vec();
+                env.execute_blocking();
+                out.get()
+            });
+            let _ = tx.send(r);
+        });
+    }
+    drop(tx);
+    let mut res = None;
+    for _ in 0..2 {
+        match rx.recv_timeout(std::time::Duration::from_secs(90)) {
+            Ok(Ok(Some(v))) => res = Some(v),
+            Ok(Ok(None)) => {}
+            Ok(Err(m)) => return Err(format!("a host failed: {m}")),
+            Err(_) => return Err("hang".to_string()),
+        }
+    }
+    res.ok_or_else(|| "no host held the result".to_string())
 }
 
 /// 2 hosts x 2 cores: a single source on host 0 emits `first` elements, pauses, emits `second`
@@ -312,4 +366,4 @@ fn idle_link_job(pause_ms: u64, first: i64, second: i64, seed: u64) -> Result<Ve
 }
 
 pub const RULE_C03: &str = "the real End operator closing a scripted chain, every strategy (OnlyOne, Random, GroupBy on value mod 100, All/broadcast), batch modes single / fixed(1) / fixed(2..5) / fixed(1024) / adaptive(1024 | 2..5 | 1, 5 | 15 | 45 ms) under a mock clock (readings in multiples of 10 ms: bursts, short and long pauses), 1..3 downstream blocks with 1..5 replicas each (several downstream blocks per producer), 1..3 rounds with data, timestamps, watermarks and FlushBatch; distinct values so that each delivery is attributable; plus, for the scheduler's wiring of forward edges, the execution graphs of random jobs on local and heterogeneous multi-host deployments (generator of C19, every host's graph). Non-trivial: >=3 data elements and >=2 receivers / >=3 blocks and >=4 links; distinct = distinct case terms";
-pub const RULE_C02: &str = "links in memory: as C03, comparing per receiver the exact batch sequence with the model (batch boundaries included) and the conservation of elements; wire format: 1..6 messages (empty, single, up to 40 elements, extreme payloads / timestamps / replica ids) framed by the real remote_send for several destination replicas on one connection, decoded by the real remote_recv, header bytes compared with the model encoder; one whole job over real TCP links (2 hosts) whose single source pauses 12 s (thorough: also 35 s) between two bursts: every element must still arrive exactly once. Non-trivial: as C03 / >=2 frames; distinct = distinct case terms";
+pub const RULE_C02: &str = "links in memory: as C03, comparing per receiver the exact batch sequence with the model (batch boundaries included) and the conservation of elements; wire format: 1..6 messages (empty, single, up to 40 elements, extreme payloads / timestamps / replica ids) framed by the real remote_send for several destination replicas on one connection, decoded by the real remote_recv, header bytes compared with the model encoder; one whole job over real TCP links (2 hosts) whose single source pauses 12 s (thorough: also 35 s) between two bursts: every element must still arrive exactly once; whole jobs (2 hosts x 2 cores) whose four source replicas send 90 one-element messages each, every third ~70 KB, over a forward connection to one replica (two senders share a multiplexed connection): per sender, the exact sequence must arrive in order. Non-trivial: as C03 / >=2 frames; distinct = distinct case terms";
